@@ -115,7 +115,8 @@ def fmtSet (R : Render K Unit) (kind : FmtKind) : SM K Unit Q String := do
   match kind with
   | .debug => pure (StdFmt.debugSet false (l.map fun p => R.dbgK p.1))
   | .debugAlt => pure (StdFmt.debugSet true (l.map fun p => R.dbgK p.1))
-  | .display => pure (displaySetCode R.dspK l)
+  | .display | .displayPad | .displayAlt => pure (displaySetCode R.dspK l)
+  | .debugPad => pure (StdFmt.debugSet false (l.map fun p => R.dbgK p.1))
 
 /-- one set operation on register state `s.r`. -/
 def stepSetOp (R : Render K Unit) (other : Nat → Raw K Unit) : SetOp K Q → SM K Unit Q (RV K Unit)
